@@ -26,10 +26,20 @@ type AFmt struct {
 
 type fmtRoot struct {
 	Fn    *ssa.Function
+	Wrap  *wrapRoot // non-nil: a %w root (C15)
 	Entry string
 	Sum   *engine.Summary
 	Args  []engine.AbsVal
 	Heap  engine.Heap
+}
+
+// wrapRoot describes a root used to decide how a function treats the %w
+// capture slot: the function is entered with the given verb and pair.
+type wrapRoot struct {
+	Verb     string // "w" or "other"
+	WrapErrs bool
+	Wrapped  bool // wrappedErr != nil
+	Via      string
 }
 
 var overrideNames = map[int64]string{0: "none", 1: "safe", 2: "unsafe"}
@@ -429,6 +439,45 @@ func (c *Ctx) AFmt() *AFmt {
 		roots = append(roots, engine.Root{Fn: fn, Args: args, Heap: engine.Heap{}})
 		a.Roots = append(a.Roots, fmtRoot{Fn: fn, Entry: "-", Args: args, Heap: engine.Heap{}})
 	}
+	// %w roots (C15): every function that receives the verb from printArg
+	// or doPrintf, entered with verb 'w' / any other verb and every state
+	// of the capture pair.
+	for _, vt := range c.verbTakers() {
+		for _, verb := range []string{"w", "other"} {
+			for _, we := range []bool{true, false} {
+				for _, wd := range []bool{false, true} {
+					if !we && wd {
+						continue // unreachable: capture needs wrapErrs
+					}
+					ppT := c.P.SSAPkg("internal/rfmt").Type("pp").Type()
+					fields := map[string]engine.AbsVal{
+						"override": num(0), "buf.Buffer.mode": num(1), "buf.Buffer.#ctx": str("none"),
+						"panicking": boolv(false), "erroring": boolv(false), "wrapErrs": boolv(we),
+						"fmt.buf": engine.Ptr{Obj: "in0", Path: "buf"},
+					}
+					if wd {
+						fields["wrappedErr"] = engine.NonNil{}
+					} else {
+						fields["wrappedErr"] = engine.NilV{}
+					}
+					args := make([]engine.AbsVal, len(vt.fn.Params))
+					for i := range args {
+						args[i] = engine.Top{}
+					}
+					args[0] = engine.Ptr{Obj: "in0"}
+					if verb == "w" {
+						args[vt.idx] = num('w')
+					} else {
+						args[vt.idx] = engine.Other{}
+					}
+					h := engine.Heap{"in0": &engine.Object{Type: ppT, Fields: fields}}
+					roots = append(roots, engine.Root{Fn: vt.fn, Args: args, Heap: h})
+					a.Roots = append(a.Roots, fmtRoot{Fn: vt.fn, Entry: fmt.Sprintf("verb=%s wrapErrs=%v wrapped=%v", verb, we, wd), Args: args, Heap: h,
+						Wrap: &wrapRoot{Verb: verb, WrapErrs: we, Wrapped: wd, Via: vt.via}})
+				}
+			}
+		}
+	}
 	a.It.Run(roots)
 	for i := range a.Roots {
 		a.Roots[i].Sum = a.It.SummaryFor(roots[i].Fn, roots[i].Args, roots[i].Heap, false)
@@ -465,4 +514,70 @@ func callsRecover(fn *ssa.Function) bool {
 		}
 	}
 	return false
+}
+
+type verbTaker struct {
+	fn  *ssa.Function
+	idx int
+	via string
+}
+
+// verbTakers lists the printer methods to which a format loop (a printer
+// method with a string parameter that reaches printArg) hands the verb of a
+// directive: a call argument of rune type that is not a constant.
+func (c *Ctx) verbTakers() []verbTaker {
+	var out []verbTaker
+	seen := map[*ssa.Function]bool{}
+	pa := c.P.Func("internal/rfmt", "(*pp).printArg")
+	if pa == nil {
+		return nil
+	}
+	isRune := func(v ssa.Value) bool {
+		if _, isConst := v.(*ssa.Const); isConst {
+			return false
+		}
+		b, ok := v.Type().Underlying().(*types.Basic)
+		return ok && b.Kind() == types.Int32
+	}
+	for _, fn := range c.P.ModuleFunctions() {
+		if recvNamed(fn) != tPP || fn == pa || fn.Parent() != nil {
+			continue
+		}
+		// a format parameter: a string parameter that is scanned (indexed)
+		hasFormat := false
+		for _, p := range fn.Params {
+			if b, ok := p.Type().Underlying().(*types.Basic); ok && b.Kind() == types.String && p.Referrers() != nil {
+				for _, ref := range *p.Referrers() {
+					switch ref.(type) {
+					case *ssa.Lookup, *ssa.Index:
+						hasFormat = true
+					}
+				}
+			}
+		}
+		if !hasFormat || !c.reach(fn, false)[pa] {
+			continue
+		}
+		for _, b := range fn.Blocks {
+			for _, ins := range b.Instrs {
+				ci, ok := ins.(ssa.CallInstruction)
+				if !ok {
+					continue
+				}
+				f := ci.Common().StaticCallee()
+				if f == nil || recvNamed(f) != tPP || seen[f] {
+					continue
+				}
+				for i, a := range ci.Common().Args {
+					if isRune(a) && i < len(f.Params) {
+						seen[f] = true
+						out = append(out, verbTaker{f, i, "format loop " + fn.Name()})
+						break
+					}
+				}
+			}
+		}
+	}
+	sort.Slice(out, func(i, j int) bool { return out[i].fn.String() < out[j].fn.String() })
+	return out
 }
